@@ -4,6 +4,7 @@ import (
 	"fmt"
 	"go/token"
 	"go/types"
+	"net"
 	"slices"
 	"strings"
 
@@ -307,6 +308,33 @@ func (in *Interp) sentinelInit(pkg *ssa.Package) {
 		if types.Identical(et, in.errType) {
 			*in.globals[g] = in.newError(pkg.Pkg.Path() + "." + name)
 		}
+		if pkg.Pkg.Path() == "net" {
+			// well-known addresses (net's init is not run)
+			var ip []byte
+			switch name {
+			case "IPv4zero":
+				ip = net.IPv4zero
+			case "IPv4bcast":
+				ip = net.IPv4bcast
+			case "IPv4allsys":
+				ip = net.IPv4allsys
+			case "IPv4allrouter":
+				ip = net.IPv4allrouter
+			case "IPv6zero":
+				ip = net.IPv6zero
+			case "IPv6unspecified":
+				ip = net.IPv6unspecified
+			case "IPv6loopback":
+				ip = net.IPv6loopback
+			}
+			if ip != nil {
+				ts := make([]*Term, len(ip))
+				for i := range ip {
+					ts[i] = in.tc.BV(8, uint64(ip[i]))
+				}
+				*in.globals[g] = in.mkByteSlice(ts)
+			}
+		}
 	}
 }
 
@@ -488,6 +516,13 @@ func (in *Interp) runFrame(fr *frame) {
 		}
 		r := recover()
 		if pe, ok := r.(pathEnd); ok {
+			if pe.kind == "unsupported" && !strings.Contains(pe.msg, " [in ") {
+				where := fr.fn.String()
+				for c, n := fr.caller, 0; c != nil && n < 3; c, n = c.caller, n+1 {
+					where += " <- " + c.fn.String()
+				}
+				pe.msg += " [in " + where + "]"
+			}
 			panic(pe) // engine-level termination: do not run defers
 		}
 		if _, ok := r.(targetPanic); !ok {
